@@ -464,6 +464,73 @@ theorem version_str_errors (s : List Char) :
             simp [tupleToInt, reduce1000] at he
       · cases hl
 
+theorem lemma_mem_splitOn (sep c : Char) (s : List Char) (hc : c ∈ s) (hne : c ≠ sep) :
+    ∃ part ∈ splitOn sep s, c ∈ part := by
+  induction s with
+  | nil => cases hc
+  | cons x t ih =>
+    unfold splitOn
+    by_cases hx : x = sep
+    · simp only [hx, if_true]
+      rcases List.mem_cons.mp hc with rfl | h
+      · exact absurd hx hne
+      · obtain ⟨part, hp, hcp⟩ := ih h
+        exact ⟨part, by simp [hp], hcp⟩
+    · simp only [hx, if_false]
+      cases hsp : splitOn sep t with
+      | nil => exact absurd hsp (lemma_splitOn_ne_nil sep t)
+      | cons p ps =>
+        rcases List.mem_cons.mp hc with rfl | h
+        · exact ⟨c :: p, by simp, by simp⟩
+        · obtain ⟨part, hp, hcp⟩ := ih h
+          rw [hsp] at hp
+          rcases List.mem_cons.mp hp with rfl | hp'
+          · exact ⟨x :: part, by simp, by simp [hcp]⟩
+          · exact ⟨part, by simp [hp'], hcp⟩
+
+theorem lemma_marker_last (m : List Char) (hm : m ∈ markers) :
+    ∃ m' c, m = m' ++ [c] ∧ (c = 'a' ∨ c = 'b' ∨ c = 'c') := by
+  simp only [markers, List.mem_cons, List.mem_nil_iff, or_false] at hm
+  rcases hm with rfl | rfl | rfl | rfl | rfl
+  · exact ⟨[], 'a', rfl, by simp⟩
+  · exact ⟨['a', 'l', 'p', 'h'], 'a', rfl, by simp⟩
+  · exact ⟨[], 'b', rfl, by simp⟩
+  · exact ⟨['b', 'e', 't'], 'a', rfl, by simp⟩
+  · exact ⟨['r'], 'c', rfl, by simp⟩
+
+theorem lemma_letters_nonnumeric : ∀ c, (c = 'a' ∨ c = 'b' ∨ c = 'c') →
+    isDigit c = false ∧ isIntSpace c = false ∧ c ≠ '+' ∧ c ≠ '-' ∧ c ≠ '_' ∧ c ≠ '.' ∧ c ≠ '\n' := by
+  intro c h; rcases h with rfl | rfl | rfl <;> decide
+
+/-- **Bare marker** — a marker `a|alpha|b|beta|rc` with no number after it is not a suffix: a
+    version text that ends in one (whatever precedes) is left alone by the substitution and both
+    converters raise ValueError. -/
+theorem version_bare_marker_valueerror (p m : List Char) (hm : m ∈ markers) :
+    stripSuffix (p ++ m) = p ++ m ∧
+    toTuple (p ++ m) = .error .valueError ∧ toInt (.str (p ++ m)) = .error .valueError := by
+  obtain ⟨m', c, rfl, hc⟩ := lemma_marker_last m hm
+  obtain ⟨h1, h2, h3, h4, h5, h6, h7⟩ := lemma_letters_nonnumeric c hc
+  have hlast : (p ++ (m' ++ [c])).getLast? = some c := by
+    rw [← List.append_assoc]; exact List.getLast?_eq_some_iff.mpr ⟨_, rfl⟩
+  have hs : stripSuffix (p ++ (m' ++ [c])) = p ++ (m' ++ [c]) := by
+    unfold stripSuffix
+    have hnl : (p ++ (m' ++ [c])).getLast? ≠ some '\n' := by
+      rw [hlast]; intro e; exact h7 (Option.some.inj e)
+    rw [if_neg hnl]
+    have : stripCore (p ++ (m' ++ [c])) = none := by
+      unfold stripCore
+      have hr : (p ++ (m' ++ [c])).reverse = c :: (m'.reverse ++ p.reverse) := by simp
+      simp [hr, h1]
+    rw [this]
+  refine ⟨hs, ?_⟩
+  obtain ⟨part, hpart, hcp⟩ := lemma_mem_splitOn '.' c (p ++ (m' ++ [c])) (by simp) h6
+  exact version_nonnumeric_valueerror _ part (by rw [hs]; exact hpart) (Or.inr ⟨c, hcp, h1, h2, h3, h4, h5⟩)
+
+example : toTuple ['1', '.', '3', 'r', 'c'] = .error .valueError ∧
+    toTuple ['1', '0', '.', '0', '.', '3', 'b', 'e', 't', 'a'] = .error .valueError ∧
+    toTuple ['1', '.', '3', 'r', 'c', '0'] = .ok [1, 3] := by decide
+
+
 /-! ### is_compatible -/
 
 /-- **Compatibility** — with both strings valid, `is_compatible` is `current >= requested`
